@@ -666,7 +666,8 @@ pub fn gen_module(r: &mut Rng, cfg: &Cfg) -> Module {
         }
     }
     if !cfg.memless && r.chance(4, 5) {
-        let min = 1 + r.below(2) as u32;
+        // sometimes a memory with zero initial pages (and then no data segments): it exists, has size 0 and can grow
+        let min = if r.chance(1, 12) { 0 } else { 1 + r.below(2) as u32 };
         let max = match r.below(12) {
             0..=3 => None,
             // a declared maximum beyond the chain's cap of 512 pages
@@ -674,7 +675,7 @@ pub fn gen_module(r: &mut Rng, cfg: &Cfg) -> Module {
             _ => Some(min + r.below(3) as u32),
         };
         m.memory = Some((min, max));
-        for _ in 0..r.below(3) {
+        for _ in 0..(if min == 0 { 0 } else { r.below(3) }) {
             let len = r.below(40) as usize;
             let off = r.below(65536 - 64) as u32;
             m.data.push((off, (0..len).map(|_| r.next() as u8).collect()));
